@@ -130,6 +130,8 @@ pub enum Ctx {
     InCurrentThread,
     /// spawn_blocking on a second runtime that was built without a time driver (and without an I/O driver)
     SpawnBlockingBareRt,
+    /// spawn_blocking on a second runtime whose blocking pool has a single thread (the caller occupies it)
+    SpawnBlockingTinyPool,
 }
 
 #[derive(Debug, Clone, Serialize, Deserialize)]
@@ -298,6 +300,11 @@ pub fn run_order(scn: &BScenario, order: &[usize]) -> BRun {
         rsactor::spawn_with_mailbox_capacity::<BA>(BArgs { log: log.clone(), gates: gates.clone() }, scn.cap)
     };
     let bare_rt = if scn.callers.iter().any(|c| c.ctx == Ctx::SpawnBlockingBareRt) { Some(tokio::runtime::Builder::new_multi_thread().worker_threads(1).build().unwrap()) } else { None };
+    let tiny_rt = if scn.callers.iter().any(|c| c.ctx == Ctx::SpawnBlockingTinyPool) {
+        Some(tokio::runtime::Builder::new_multi_thread().worker_threads(1).max_blocking_threads(1).enable_all().build().unwrap())
+    } else {
+        None
+    };
     let (res_tx, res_rx) = mpsc::channel::<(usize, usize, u64, BRes)>();
     // one command channel per caller
     let mut cmd_txs: Vec<Option<mpsc::Sender<(usize, BOp)>>> = Vec::new();
@@ -447,6 +454,16 @@ pub fn run_order(scn: &BScenario, order: &[usize]) -> BRun {
                     let _ = res_tx.send((ci, idx, t0.elapsed().as_millis() as u64, res));
                 }));
             }
+            (_, Ctx::SpawnBlockingTinyPool) => {
+                let r = aref.clone();
+                let res_tx = res_tx.clone();
+                let op2 = op.clone();
+                let erased = c.erased;
+                let _ = tiny_rt.as_ref().unwrap().spawn_blocking(move || {
+                    let res = if erased { do_blocking_erased(&r, &op2) } else { do_blocking(&r, &op2) };
+                    let _ = res_tx.send((ci, idx, t0.elapsed().as_millis() as u64, res));
+                });
+            }
             (_, Ctx::SpawnBlockingBareRt) => {
                 let r = aref.clone();
                 let res_tx = res_tx.clone();
@@ -527,6 +544,10 @@ pub fn run_order(scn: &BScenario, order: &[usize]) -> BRun {
     rt.shutdown_timeout(Duration::from_millis(200));
     if let Some(b) = bare_rt {
         b.shutdown_timeout(Duration::from_millis(200));
+    }
+    if let Some(b) = tiny_rt {
+        // (a caller that never came back still sits on the pool's only thread: do not wait for it)
+        b.shutdown_background();
     }
     crate::msched::BT_ACTIVE.store(false, Ordering::SeqCst);
     let (dls, logs, tell_results) = {
@@ -681,8 +702,11 @@ pub fn check_run(scn: &BScenario, run: &BRun) -> Vec<(String, String)> {
     // aliases ignore their timeout: they behave like None, i.e. they are still waiting while their gate is closed
     // (checked through "Timeout only when asked for" above and through completion after the gates open)
     // dead letters: exactly one per failed delivery
+    // (scenarios with messages whose destructor panics are left out of the accounting clauses: depending on where the
+    // message is dropped, the unwinding does or does not skip the record)
+    let has_precious = run.ops.iter().any(|o| op_id(&o.op).map(is_precious_id).unwrap_or(false));
     if let Some(dl) = run.dl_count {
-        if dl != failures {
+        if dl != failures && !has_precious {
             v("C17 one dead letter per failed delivery", format!("dead_letter_count() = {dl}, failed operations = {failures}"));
         }
     }
@@ -716,7 +740,7 @@ pub fn check_run(scn: &BScenario, run: &BRun) -> Vec<(String, String)> {
         for d in &run.dls {
             *got.entry(d.reason.as_str()).or_default() += 1;
         }
-        if want != got && run.ops.iter().all(|o| o.res.is_some()) {
+        if want != got && run.ops.iter().all(|o| o.res.is_some()) && !has_precious {
             v("C17 dead letter reasons match the errors", format!("errors returned: {want:?}; dead letters recorded: {got:?}"));
         }
         for d in &run.dls {
@@ -978,6 +1002,16 @@ pub fn scenarios(thorough: bool) -> Vec<BScenario> {
             BCaller { erased: false, ctx: Ctx::Async, ops: vec![BOp::Stop] },
             BCaller { erased: false, ctx: Ctx::Thread, ops: vec![BOp::Wait(100), t(80, None, Some(2000)), a(81, None, Some(2000))] },
             BCaller { erased: true, ctx: Ctx::SpawnBlocking, ops: vec![BOp::Wait(100), a(82, None, Some(2000))] },
+        ],
+    });
+    // S19: bounded calls from the only thread of a runtime's blocking pool
+    v.push(BScenario {
+        name: "b19-spawn-blocking-pool-of-one".into(),
+        cap: 2,
+        gates: 1,
+        callers: vec![
+            BCaller { erased: false, ctx: Ctx::SpawnBlockingTinyPool, ops: vec![a(1, Some(0), Some(100)), t(2, None, Some(100))] },
+            BCaller { erased: false, ctx: Ctx::Async, ops: vec![BOp::Wait(300), BOp::OpenGate(0)] },
         ],
     });
     // S6: unusual timeout values
